@@ -113,6 +113,24 @@ type ExploreOpts struct {
 	TimeBudget      time.Duration
 }
 
+// wantSample: which paths are replayed natively as conformance samples: the first n of a job
+// and then the paths number n*3, n*9, n*27, ... (neighbouring DFS paths differ in their last
+// decisions only; the spread reaches the other branches of early decisions), at most 3n in all.
+func wantSample(idx, have, n int) bool {
+	if have < n && idx < n {
+		return true
+	}
+	if n == 0 || have >= 3*n {
+		return false
+	}
+	for k := n * 3; k <= idx; k *= 3 {
+		if k == idx {
+			return true
+		}
+	}
+	return have < n && idx >= n // a skipped early path (inconclusive, violated) is made up for
+}
+
 // Explore runs fn(args...) on every path.
 func (m *Machine) Explore(root *ssa.Package, fn *ssa.Function, args []value, job string, o ExploreOpts) *JobResult {
 	res := &JobResult{Job: job, Covers: map[string]int{}, Asserts: map[string]int{}}
@@ -171,7 +189,7 @@ func (m *Machine) Explore(root *ssa.Package, fn *ssa.Function, args []value, job
 			completed = true
 		}()
 		res.Paths++
-		if completed && len(res.Samples) < e.MaxSamples && !e.inconcl && !e.violated && !hasPoolChoice(e.sched) {
+		if completed && wantSample(res.Paths-1, len(res.Samples), e.MaxSamples) && !e.inconcl && !e.violated && !hasPoolChoice(e.sched) {
 			if script := e.sampleModel(); script != nil {
 				res.Samples = append(res.Samples, Sample{Job: job, Script: script, Trace: append([]string{}, e.trace...), Sched: append([]string{}, e.sched...)})
 			}
